@@ -78,6 +78,76 @@ def scope_root_ctors(prog):
     return out
 
 
+def _strip_ty(t):
+    import re as _re
+    t = _re.sub(r"'[a-z_]+ ", "", t)
+    t = t.replace("&mut ", "").replace("&", "").strip()
+    return _re.sub(r"<'[a-z_]+(, '[a-z_]+)*>$", "", t)
+
+
+def chain_carriers(prog):
+    """Crate structs that hold a *mutable borrow* of a scope chain (an
+    `Evaluator{context, scopes: &mut ScopeStack}`-style bundle): a value of
+    such a type stands for the current chain just as a `&mut ScopeStack`
+    parameter does.  {adt path: (field index, field name)}"""
+    memo = getattr(prog, "_chain_carriers", None)
+    if memo is not None:
+        return memo
+    out = {}
+    for path, a in prog.adts.items():
+        if path.startswith(("std::", "core::", "alloc::")) or len(a.get("variants", [])) != 1:
+            continue
+        for i, fd in enumerate(a["variants"][0]["fields"]):
+            if fd["ty"].startswith("&") and "mut " in fd["ty"].split("eval::")[0] + "" \
+                    and _strip_ty(fd["ty"]) == SCOPESTACK:
+                out[path] = (i, fd["name"])
+    prog._chain_carriers = out
+    return out
+
+
+def is_chain_ty(prog, t):
+    """`&mut ScopeStack` or a (reference to a) chain carrier."""
+    if not t.startswith("&"):
+        return False
+    s = _strip_ty(t)
+    return (s == SCOPESTACK and "mut " in t) or s in chain_carriers(prog)
+
+
+def chain_pi(prog, t):
+    """Projection from a value of chain type `t` to the ScopeStack itself."""
+    s = _strip_ty(t)
+    if s == SCOPESTACK:
+        return ("*",)
+    k, name = chain_carriers(prog)[s]
+    return ("*", ("f", k, s, s.split("::")[-1]), "*")
+
+
+def unwrap_carrier(prog, g, operand, depth=0):
+    """If `operand` is (a reference to) a chain carrier built by a constructor
+    call `Carrier::new(.., chain, ..)` or a struct literal, return the operand
+    that supplies its chain field; otherwise return `operand`."""
+    if depth > 3 or not mir.is_place_operand(operand):
+        return operand
+    cp = g.canon_op(operand)
+    root = cp[0]
+    carriers = chain_carriers(prog)
+    if root[0] == "call":
+        cc = g.call_at(root[1])
+        h = prog.fns.get(cc.res) if cc is not None and not cc.is_ptr else None
+        if h is not None and h.full and h.locals and _strip_ty(h.locals[0]) in carriers:
+            k, name = carriers[_strip_ty(h.locals[0])]
+            for bb, i, pl, kd, aops, sp in h.aggregates(_strip_ty(h.locals[0])):
+                acp = h.canon_op(aops[k])
+                if acp[0][0] == "arg" and acp[0][1] - 1 < len(cc.args):
+                    return unwrap_carrier(prog, g, cc.args[acp[0][1] - 1], depth + 1)
+    elif root[0] == "agg":
+        st = g.stmts(root[1])[root[2]]
+        kd = st[2][1]
+        if kd.get("adt") in carriers:
+            return unwrap_carrier(prog, g, st[2][2][carriers[kd["adt"]][0]], depth + 1)
+    return operand
+
+
 def value_module(prog):
     a = prog.adts.get("eval::value::Value")
     return a["module"] if a and a.get("module") else "eval::value"
